@@ -104,7 +104,10 @@ class SphericalGaussian(_ProbabilisticModel):
         c = np.reshape(self.covariance, (-1,))
         pc = _compute_precision_cholesky(c, 'diag')
         self.precision_cholesky = np.reshape(pc, self.covariance.shape)
-        self.log_det_precision_cholesky = _compute_log_det_cholesky(pc, 'spherical', D)
+        self.log_det_precision_cholesky = np.reshape(
+            _compute_log_det_cholesky(pc, 'spherical', D),
+            self.covariance.shape
+        )
 
     def log_pdf(self, y):
         """Gets used by e.g. the GMM.
